@@ -83,7 +83,7 @@ fn parse_args() -> Args {
 
 fn main() {
     let args = parse_args();
-    mb2_sandbox::silence_panics();
+    mb2_model::panics::install_hook();
     known::load(&args.verif.join("known_findings.json"));
     if let Some(p) = &args.replay_one {
         std::process::exit(replay_one(&args, p));
